@@ -34,4 +34,6 @@ CONSTANTS
   CryptProbeDirectOnly = FALSE
   ParmRefLayouts = {"dict","array","inddict","indarray"}
   InlinedAsIs = TRUE
+  MaxChain = 10
+  BoundBeforeRead = FALSE
 INVARIANTS Shape
